@@ -153,10 +153,12 @@ def _ctor_case(method, kind, q, pairs, res, sizes_cache):
     try:
         with warnings.catch_warnings():
             warnings.simplefilter("ignore")
+            # every third request is passed as a NumPy integer (np.int64 / np.int32), the rest as int
+            qq = q if (q % 3 or q < 0) else (np.int64(q) if q % 2 else np.int32(q))
             if kind == "degree":
-                g = AngularGrid(degree=q, method=method, cache=False)
+                g = AngularGrid(degree=qq, method=method, cache=False)
             else:
-                g = AngularGrid(size=q, method=method, cache=False)
+                g = AngularGrid(size=qq, method=method, cache=False)
         got = (int(g.degree), int(g.size), int(len(g.points)), int(len(g.weights)))
     except ValueError as exc:
         got = ("ValueError", str(exc)[:60])
